@@ -35,8 +35,31 @@ F4_REL = 2.0 ** -21  # declared tolerance for float32 columns (float32 has a 24 
 # specifications -> partitura objects (public API only)
 
 
-def build_part(spec):
-    """Build a partitura Part from a JSON specification.  Returns (part, {id: object})."""
+def add_notes(p, objs, notes):
+    import partitura.score as S
+    for n in notes:
+        kw = dict(id=n["id"], voice=n["voice"], staff=n["staff"])
+        if n.get("rest"):
+            o = S.Rest(**kw)
+        elif n.get("grace"):
+            o = S.GraceNote(n["grace"], step=n["step"], octave=n["oct"], alter=n["alter"], **kw)
+        else:
+            o = S.Note(step=n["step"], octave=n["oct"], alter=n["alter"], **kw)
+        p.add(o, n["s"], n["e"])
+        objs[n["id"]] = o
+
+
+def link_notes(objs, notes):
+    for n in notes:
+        if n.get("tie_next") and n["tie_next"] in objs and n["id"] in objs:
+            a, b = objs[n["id"]], objs[n["tie_next"]]
+            a.tie_next = b
+            b.tie_prev = a
+
+
+def build_part(spec, only_ids=None):
+    """Build a partitura Part from a JSON specification.  Returns (part, {id: object}).
+    only_ids: add only these notes (the others follow later through add_notes / link_notes)."""
     import partitura.score as S
 
     p = S.Part(spec["id"])
@@ -49,22 +72,24 @@ def build_part(spec):
     for i, (s, e) in enumerate(spec["measures"]):
         p.add(S.Measure(number=i + 1), s, e)
     objs = {}
-    for n in spec["notes"]:
-        kw = dict(id=n["id"], voice=n["voice"], staff=n["staff"])
-        if n.get("rest"):
-            o = S.Rest(**kw)
-        elif n.get("grace"):
-            o = S.GraceNote(n["grace"], step=n["step"], octave=n["oct"], alter=n["alter"], **kw)
-        else:
-            o = S.Note(step=n["step"], octave=n["oct"], alter=n["alter"], **kw)
-        p.add(o, n["s"], n["e"])
-        objs[n["id"]] = o
-    for n in spec["notes"]:
-        if n.get("tie_next"):
-            a, b = objs[n["id"]], objs[n["tie_next"]]
-            a.tie_next = b
-            b.tie_prev = a
+    notes = [n for n in spec["notes"] if only_ids is None or n["id"] in only_ids]
+    add_notes(p, objs, notes)
+    link_notes(objs, notes)
     return p, objs
+
+
+def sub_spec(spec, ids):
+    """The specification restricted to the notes in ids (tie links to the others dropped)."""
+    out = []
+    for n in spec["notes"]:
+        if n["id"] in ids:
+            m = dict(n)
+            if m.get("tie_next") and m["tie_next"] not in ids:
+                m.pop("tie_next")
+            out.append(m)
+    s = dict(spec)
+    s["notes"] = out
+    return s
 
 
 def build_score(specs):
@@ -206,6 +231,28 @@ def instantiate(layout, divs, pid, notes, qd_change=None):
             "notes": notes, "total": cv(layout["total"])}
 
 
+def gen_dense_notes(rng, total, prefix="n"):
+    """Many notes on few onsets (chords of 8-30 notes, duplicates of (onset, pitch)): numpy's sorts
+    only leave their small-array code path above 16 elements, so the (stable) second pass of the
+    two-pass sort is only exercised by arrays of this size."""
+    notes = []
+    onsets = sorted(rng.sample(range(0, max(1, total)), min(max(1, total), rng.randint(2, 6))))
+    n = rng.randint(24, 70)
+    for k in range(n):
+        s = rng.choice(onsets)
+        e = min(total, s + rng.randint(1, 6))
+        if rng.random() < 0.1:
+            e = s
+        a = {"step": rng.choice(STEPS), "alter": rng.choice([None, 0, 1, -1]), "oct": rng.randint(1, 7),
+             "voice": rng.choice([None, 1, 2, 3]), "staff": rng.choice([None, 1, 2])}
+        d = dict(id="%s%d" % (prefix, k), s=s, e=e, **a)
+        if e == s:
+            d["grace"] = rng.choice(GRACE_TYPES)
+        notes.append(d)
+    rng.shuffle(notes)
+    return notes
+
+
 def gen_part_spec(rng, pid="P1", allow_qd_change=True):
     aligned = rng.random() < 0.35
     layout = gen_layout(rng, quarter_aligned=aligned)
@@ -218,7 +265,10 @@ def gen_part_spec(rng, pid="P1", allow_qd_change=True):
             qd_change = (m[0], divs + 2)
     spec = instantiate(layout, divs, pid, [], qd_change)
     bar = max(1, 2 * divs)
-    spec["notes"] = gen_notes(rng, spec["total"], bar)
+    if rng.random() < 0.09 and spec["total"] > 0:
+        spec["notes"] = gen_dense_notes(rng, spec["total"])
+    else:
+        spec["notes"] = gen_notes(rng, spec["total"], bar)
     return spec
 
 
@@ -226,26 +276,96 @@ DIVS_SETS = [(4, 6), (4, 6, 10), (6, 8), (10, 12), (2, 3), (3, 4, 5), (2, 2), (4
 
 
 def gen_score_specs(rng):
-    """2-4 parts over one layout, divisions whose lcm exceeds all of them; often one part without notes."""
+    """2-4 parts over one layout, divisions whose lcm exceeds all of them; often one part without notes;
+    sometimes 11-13 small parts (part numbers with two digits) or one dense part."""
     ds = list(rng.choice(DIVS_SETS))
     aligned = any(d % 2 for d in ds)
     layout = gen_layout(rng, quarter_aligned=aligned)
-    if rng.random() < 0.08:
+    r = rng.random()
+    many = False
+    if r < 0.08:
         ds = ds[:1]                                  # single-part score: ids never prefixed
+    elif r < 0.14:
+        many = True
+        ds = [rng.choice(ds) for _ in range(rng.randint(11, 13))]
     empty_at = None
     if rng.random() < 0.5 and len(ds) >= 2:
         empty_at = rng.randrange(0, len(ds) + 1)
         ds.insert(empty_at, rng.choice(ds))          # its divisions are one of the others' (lcm unaffected)
+    dense_at = rng.randrange(len(ds)) if (not many and rng.random() < 0.1) else None
     specs = []
     for i, d in enumerate(ds):
         spec = instantiate(layout, d, "part%d" % i, [])
-        if i != empty_at:
-            ns = gen_notes(rng, spec["total"], max(1, 2 * d), prefix="n", n_max=7, rests=rng.random() < 0.3)
+        if i != empty_at and spec["total"] > 0:
+            if i == dense_at:
+                ns = gen_dense_notes(rng, spec["total"])
+            else:
+                ns = gen_notes(rng, spec["total"], max(1, 2 * d), prefix="n", n_max=(2 if many else 7), rests=rng.random() < 0.3)
             if not [n for n in ns if not n.get("rest")] and rng.random() < 0.7:
                 ns.append(dict(id="nx", s=0, e=min(spec["total"], d), step="C", alter=None, oct=4, voice=1, staff=1))
             spec["notes"] = ns
         specs.append(spec)
     return specs
+
+
+def gen_shape(rng, n):
+    """How the n parts are handed over: a nested list of part numbers (inner lists = PartGroups),
+    parts in their order.  [0, 1, 2] is the flat list."""
+    if n < 2 or rng.random() < 0.45:
+        return list(range(n))
+
+    def split(lo, hi, depth):
+        items = list(range(lo, hi))
+        if len(items) <= 1 or depth > 2:
+            return items
+        out = []
+        i = lo
+        while i < hi:
+            k = rng.randint(1, max(1, min(3, hi - i)))
+            if rng.random() < 0.5 or (k == hi - lo and depth > 0):
+                out.extend(range(i, i + k))           # plain members
+            else:
+                out.append(split(i, i + k, depth + 1) if k > 1 else [i])   # a group (possibly of one part)
+            i += k
+        return out
+    sh = split(0, n, 0)
+    return sh
+
+
+def shape_is_flat(shape):
+    return all(isinstance(x, int) for x in shape)
+
+
+def shape_leaves(shape):
+    out = []
+    for x in shape:
+        out.extend([x] if isinstance(x, int) else shape_leaves(x))
+    return out
+
+
+def canonical_prefixes(shape, uniq, pre=""):
+    """part number -> id prefix the current implementation (and the Coq model) uses."""
+    out = {}
+    for i, x in enumerate(shape):
+        p = pre + ("P%02d_" % i if (uniq and len(shape) > 1) else "")
+        if isinstance(x, int):
+            out[x] = p
+        else:
+            out.update(canonical_prefixes(x, uniq, p))
+    return out
+
+
+def build_members(shape, parts):
+    import partitura.score as S
+    out = []
+    for x in shape:
+        if isinstance(x, int):
+            out.append(parts[x])
+        else:
+            g = S.PartGroup(group_name="g")
+            g.children = build_members(x, parts)
+            out.append(g)
+    return out
 
 
 def option_sets(rng, names, n_random, full=False, mp_ok=True):
@@ -345,11 +465,16 @@ def expected_rows(spec, part, opts, rests=False):
     times = [n["s"] for n, _ in heads] + [n["s"] + d for n, d in heads]
     qm, bm = time_maps(part, times)
     rows = []
+    stated = frozenset(v for v in raw_voices if v != -1)
     for (n, d), rv in zip(heads, raw_voices):
         r = {"onset_div": n["s"], "duration_div": d, "pitch": midi_pitch(n),
              "voice": (mv + 1 if rv == -1 else rv), "voice_stated": n["voice"] is not None, "id": n["id"],
              "onset_quarter": qm[n["s"]], "duration_quarter": qm[n["s"] + d] - qm[n["s"]],
-             "onset_beat": bm[n["s"]], "duration_beat": bm[n["s"] + d] - bm[n["s"]]}
+             "onset_beat": bm[n["s"]], "duration_beat": bm[n["s"] + d] - bm[n["s"]],
+             # bookkeeping (not columns): the voices the score states in this array, the id in the part,
+             # the magnitudes of the two map values a duration is the difference of
+             "_stated": stated, "_oid": n["id"], "_part": 0,
+             "_span_quarter": abs(qm[n["s"]]) + abs(qm[n["s"] + d]), "_span_beat": abs(bm[n["s"]]) + abs(bm[n["s"] + d])}
         if opts.get("include_pitch_spelling"):
             if rests:
                 r.update(step="0", alter=0, octave=0)
@@ -397,48 +522,82 @@ def array_rows(arr):
     return out
 
 
-def f4_close(got, exp):
-    return abs(got - exp) <= abs(exp) * F4_REL + 2.0 ** -40
+def f4_close(got, exp, span=None):
+    """float32 column against the part's float64 map: relative 2^-21 (of the value; for a duration of the
+    two map values it is the difference of, so that the difference may be taken in single precision)."""
+    return abs(got - exp) <= (abs(exp) if span is None else span) * F4_REL + 2.0 ** -40
 
 
-def compare_table(got_rows, exp_rows, names):
-    """Property check on one table.  Returns None or a description of the first discrepancy."""
-    exp_cols = [c for c in INT_COLS + STR_COLS + F_COLS if exp_rows and c in exp_rows[0]]
+def row_diff(g, e, cols, rests=False):
+    """First column in which the observed row g differs from what the score states (e); None if none.
+    * a note WITHOUT voice: the score states nothing; the number chosen must not be one of the voices the
+      score states in that array (it is not compared with the implementation's max+1 formula);
+    * the dummy spelling letter of a rest is not compared (alter and octave are the documented zeros)."""
+    for c in cols:
+        if c == "id":
+            continue
+        if c in F_COLS:
+            span = e["_span_" + c.split("_")[1]] if c.startswith("duration") else None
+            if not f4_close(g[c], e[c], span):
+                return "row %r: %s = %r, the part's map gives %r" % (g["id"], c, g[c], e[c])
+        elif c == "voice" and not e["voice_stated"]:
+            if g[c] in e["_stated"]:
+                return ("row %r: voice = %r for a note without voice, which is a voice the score states for other notes "
+                        "of the array (%s)" % (g["id"], g[c], sorted(e["_stated"])))
+        elif c == "step" and rests:
+            continue
+        elif g[c] != e[c]:
+            return "row %r: %s = %r, the score states %r" % (g["id"], c, g[c], e[c])
+    return None
+
+
+def table_columns(exp_rows, names, optional=()):
+    return [c for c in INT_COLS + STR_COLS + F_COLS
+            if exp_rows and c in exp_rows[0] and not (c in optional and c not in names)]
+
+
+def compare_table(got_rows, exp_rows, names, rests=False, optional=(), final_ids=None):
+    """Property check on one table.  Returns (None, matched) or (description of the first discrepancy, None);
+    matched[i] is the expected row that explains got_rows[i].  final_ids: the id each expected row must
+    carry in the table (default: its own id)."""
+    exp_cols = table_columns(exp_rows, names, optional)
     if exp_rows:
         missing = [c for c in exp_cols if c not in names]
         if missing:
-            return "columns missing from the array: %s" % missing
+            return "columns missing from the array: %s" % missing, None
     else:
         missing = [c for c in ["onset_div", "duration_div", "pitch", "voice", "id"] if c not in names]
         if missing:
-            return "columns missing from the (empty) array: %s" % missing
+            return "columns missing from the (empty) array: %s" % missing, None
     if len(got_rows) != len(exp_rows):
-        return "row count %d, expected %d (one row per sounding note / tie chain)" % (len(got_rows), len(exp_rows))
+        return "row count %d, expected %d (one row per sounding note / tie chain)" % (len(got_rows), len(exp_rows)), None
     # order: onset, then pitch
     for a, b in zip(got_rows, got_rows[1:]):
         if (a["onset_div"], a["pitch"]) > (b["onset_div"], b["pitch"]):
-            return "rows not ordered by (onset, pitch): %r before %r" % ((a["onset_div"], a["pitch"], a["id"]), (b["onset_div"], b["pitch"], b["id"]))
-    # multiset comparison, matched through the id (ids are unique in generated parts)
-    exp_by_id = {}
-    for r in exp_rows:
-        exp_by_id.setdefault(r["id"], []).append(r)
+            return ("rows not ordered by (onset, pitch): %r before %r"
+                    % ((a["onset_div"], a["pitch"], a["id"]), (b["onset_div"], b["pitch"], b["id"]))), None
+    # multiset comparison; rows are found through their id (several candidates when ids repeat)
+    if final_ids is None:
+        final_ids = [e["id"] for e in exp_rows]
+    by_id = {}
+    for e, fid in zip(exp_rows, final_ids):
+        by_id.setdefault(fid, []).append(e)
+    matched = []
     for g in got_rows:
-        cands = exp_by_id.get(g["id"])
+        cands = by_id.get(g["id"])
         if not cands:
-            return "row with id %r does not belong to a sounding note of the score (or appears twice)" % g["id"]
-        e = cands.pop()
-        for c in exp_cols:
-            if c == "voice_stated":
-                continue
-            if c in F_COLS:
-                if not f4_close(g[c], e[c]):
-                    return "row %r: %s = %r, the part's map gives %r" % (g["id"], c, g[c], e[c])
-            elif g[c] != e[c]:
-                if c == "voice" and not e.get("voice_stated", True):
-                    return ("row %r: voice = %r for a note without voice; the rule (one number above every stated voice "
-                            "of the array) gives %r" % (g["id"], g[c], e[c]))
-                return "row %r: %s = %r, the score states %r" % (g["id"], c, g[c], e[c])
-    return None
+            return ("row with id %r does not belong to a sounding note of the score (or appears more often than "
+                    "in the score)" % g["id"]), None
+        first = None
+        for k, e in enumerate(cands):
+            m = row_diff(g, e, exp_cols, rests)
+            if m is None:
+                matched.append(cands.pop(k))
+                break
+            first = first or m
+        else:
+            return first, None
+    return None, matched
 
 
 def call_note_array(part, opts, rests=False):
@@ -456,10 +615,13 @@ def is_declared_multidiv_rejection(spec, opts, exc):
             and "multiple divisions is not supported" in str(exc.args[0] if exc.args else ""))
 
 
-def check_part(spec, opts, rests=False):
-    """Direct oracle for one part and one option set.
-    Returns (status, message, rows, maps): status in ok | rejected | map_unavailable | FAIL."""
-    part, _ = build_part(spec)
+def check_part(spec, opts, rests=False, part=None):
+    """Direct oracle for one part and one option set (part: an already built part, e.g. one that has
+    been read before and extended since).
+    Returns (status, message, rows, maps): status in ok | rejected | map_unavailable | FAIL; rows carry
+    under "_exp" the expected row that explains them."""
+    if part is None:
+        part, _ = build_part(spec)
     exp, maps = expected_rows(spec, part, opts, rests)
     if maps["errors"]:
         return "map_unavailable", str(maps["errors"]), None, maps
@@ -469,9 +631,12 @@ def check_part(spec, opts, rests=False):
             return "rejected", "declared: several divisions with include_divs_per_quarter", None, maps
         return "FAIL", "%s raised %s: %s" % ("rest_array" if rests else "note_array", type(res).__name__, res), None, maps
     rows = array_rows(res)
-    msg = compare_table(rows, exp, res.dtype.names)
+    msg, matched = compare_table(rows, exp, res.dtype.names, rests=rests)
     if msg:
         return "FAIL", msg, rows, maps
+    for r, e in zip(rows, matched):
+        r["_exp"] = e
+        r["_names"] = res.dtype.names
     return "ok", "", rows, maps
 
 
@@ -525,14 +690,19 @@ def c_opts(o):
     return "(mkOpts %s)" % " ".join(cbool(bool(o.get(k))) for k in OPT_NAMES)
 
 
-def c_obs(r, names):
+def c_obs(r, names, rests=False, obs_id=None):
+    """Observed row as a Coq term.  A row explained by a note WITHOUT voice is printed with voice -1 (the
+    oracle has checked that the observed number is not a stated voice; the model side shows such rows as
+    -1 too, Model/C05_Ext.norm_voice); the dummy spelling letter of a rest is printed as the model's "0"."""
     def grp(cols, pr):
         if all(c in names for c in cols):
             return "(Some %s)" % pr([r[c] for c in cols])
         return "None"
+    e = r.get("_exp")
+    voice = r["voice"] if (e is None or e["voice_stated"]) else -1
     return ctuple([
-        cz(r["onset_div"]), cz(r["duration_div"]), cz(r["pitch"]), cz(r["voice"]), cstr(r["id"]),
-        grp(["step", "alter", "octave"], lambda v: ctuple([cstr(v[0]), cz(v[1]), cz(v[2])])),
+        cz(r["onset_div"]), cz(r["duration_div"]), cz(r["pitch"]), cz(voice), cstr(r["id"] if obs_id is None else obs_id),
+        grp(["step", "alter", "octave"], lambda v: ctuple([cstr("0" if rests else v[0]), cz(v[1]), cz(v[2])])),
         grp(["is_grace", "grace_type"], lambda v: ctuple([cbool(v[0] != 0), cstr(v[1])])),
         grp(["ks_fifths", "ks_mode"], lambda v: ctuple([cz(v[0]), cz(v[1])])),
         grp(["ts_beats", "ts_beat_type", "ts_mus_beats"], lambda v: ctuple([cz(x) for x in v])),
@@ -540,6 +710,33 @@ def c_obs(r, names):
         grp(["staff"], lambda v: cz(v[0])),
         grp(["divs_pq"], lambda v: cz(v[0])),
     ])
+
+
+def c_part_case(spec, part, opts, rows, rests):
+    """One part-level correspondence case (None when a map is unavailable)."""
+    am = all_maps(part, spec, rests)
+    if am["errors"]:
+        return None
+    names = rows[0]["_names"] if rows else ()
+    obs = "(%s : list obs)" % clist([c_obs(r, names, rests) for r in rows])
+    o7 = dict(opts)
+    if rests:
+        o7["include_divs_per_quarter"] = False
+    return "(%s, %s, %s, %s, %s, %s)" % (c_notes(spec), c_maps(am), cz(spec_divs(spec)), c_opts(o7), cbool(rests), obs)
+
+
+def c_time_case(spec, part, rows, rests=False):
+    heads = spec_heads(spec, rests)
+    times = [n["s"] for n, _ in heads] + [n["s"] + d for n, d in heads]
+    qm, bm = time_maps(part, times)
+    tcs = "(%s : list (Z * Z * (Q * Q * Q * Q)))" % clist([ctuple([cz(r["onset_div"]), cz(r["duration_div"]),
+                         ctuple([core.cfloat_q(r[c]) for c in ("onset_quarter", "duration_quarter", "onset_beat", "duration_beat")])])
+                 for r in rows])
+    return "(%s, (maps_of_q %s %s [] [] []), %s, %s, %s)" % (c_notes(spec), c_qmap(qm), c_qmap(bm), cz(spec_divs(spec)), cbool(rests), tcs)
+
+
+PART_CHECKER = "fun c => match c with (ns, mp, d, o, rests, impl) => part_case_ok_n ns mp d o rests impl end"
+TIME_CHECKER = "fun c => match c with (ns, mp, d, rests, impl) => time_cols_ok_s ns mp d rests impl end"
 
 
 def c_amap(tab, width):
@@ -579,6 +776,8 @@ def probe_metrical_position():
 
 
 def stage_parts(ctx, n_parts, n_random_opts, full_every, mp_ok, coq_per_part):
+    import numpy as np
+    import partitura.utils.music as M
     rng = ctx.rng
     coq_terms, coq_cases = [], []
     tc_terms, tc_cases = [], []
@@ -592,7 +791,8 @@ def stage_parts(ctx, n_parts, n_random_opts, full_every, mp_ok, coq_per_part):
             ctx.count("part:" + f)
         coq_pick = set(rng.sample(range(len(osets)), min(coq_per_part, len(osets))))
         for oi, opts in enumerate(osets):
-            status, msg, rows, maps = check_part(spec, opts)
+            part, _ = build_part(spec)
+            status, msg, rows, maps = check_part(spec, opts, part=part)
             ctx.evaluations += 1
             ctx.count("note_array:" + status)
             seen_combos.add(tuple(opts[k] for k in OPT_NAMES))
@@ -607,29 +807,20 @@ def stage_parts(ctx, n_parts, n_random_opts, full_every, mp_ok, coq_per_part):
             if feats:
                 ctx.nontrivial(("part", spec, opts))
             if oi in coq_pick:
-                part, _ = build_part(spec)
-                am = all_maps(part, spec)
-                if am["errors"]:
+                term = c_part_case(spec, part, opts, rows, False)
+                if term is None:
                     continue
-                _, arr = call_note_array(part, opts)
-                names = arr.dtype.names
-                obs = "(%s : list obs)" % clist([c_obs(r, names) for r in rows])
-                coq_terms.append("(%s, %s, %s, %s, false, %s)" % (c_notes(spec), c_maps(am), cz(spec_divs(spec)), c_opts(opts), obs))
+                coq_terms.append(term)
                 coq_cases.append({"kind": "part", "spec": spec, "opts": opts, "rests": False})
                 if len(tc_terms) < len(coq_terms) // 3 + 1 and rows:
-                    heads = spec_heads(spec)
-                    times = [n["s"] for n, _ in heads] + [n["s"] + d for n, d in heads]
-                    qm, bm = time_maps(part, times)
-                    tcs = "(%s : list (Z * Z * (Q * Q * Q * Q)))" % clist([ctuple([cz(r["onset_div"]), cz(r["duration_div"]),
-                                         ctuple([core.cfloat_q(r[c]) for c in ("onset_quarter", "duration_quarter", "onset_beat", "duration_beat")])])
-                                 for r in rows])
-                    tc_terms.append("(%s, (maps_of_q %s %s [] [] []), %s, false, %s)" % (c_notes(spec), c_qmap(qm), c_qmap(bm), cz(spec_divs(spec)), tcs))
+                    tc_terms.append(c_time_case(spec, part, rows))
                     tc_cases.append({"kind": "part", "spec": spec, "opts": opts, "rests": False})
         if pi < 2:
             ctx.sample({"part_spec": spec, "options_tried": len(osets)})
         # the rest array of the same part
-        for opts in option_sets(rng, REST_OPT_NAMES, 1, full=bool(full and pi % (2 * full_every) == 0), mp_ok=mp_ok)[: (64 if full else 4)]:
-            status, msg, rows, maps = check_part(spec, opts, rests=True)
+        for ri, opts in enumerate(option_sets(rng, REST_OPT_NAMES, 1, full=bool(full and pi % (2 * full_every) == 0), mp_ok=mp_ok)[: (64 if full else 4)]):
+            part, _ = build_part(spec)
+            status, msg, rows, maps = check_part(spec, opts, rests=True, part=part)
             ctx.evaluations += 1
             ctx.count("rest_array:" + status)
             if status == "FAIL":
@@ -639,25 +830,62 @@ def stage_parts(ctx, n_parts, n_random_opts, full_every, mp_ok, coq_per_part):
                               {"kind": "part", "spec": small, "opts": opts, "rests": True, "message": m2 or msg})
                 continue
             if status == "ok" and rows and rng.random() < 0.5:
-                part, _ = build_part(spec)
-                am = all_maps(part, spec, rests=True)
-                if am["errors"]:
+                term = c_part_case(spec, part, opts, rows, True)
+                if term is None:
                     continue
-                _, arr = call_note_array(part, opts, rests=True)
-                obs = "(%s : list obs)" % clist([c_obs(r, arr.dtype.names) for r in rows])
-                o7 = dict(opts)
-                o7["include_divs_per_quarter"] = False
-                coq_terms.append("(%s, %s, %s, %s, true, %s)" % (c_notes(spec), c_maps(am), cz(spec_divs(spec)), c_opts(o7), obs))
+                coq_terms.append(term)
                 coq_cases.append({"kind": "part", "spec": spec, "opts": opts, "rests": True})
                 ctx.nontrivial(("rest", spec, opts))
+                if ri == 0 and len(tc_terms) < len(coq_terms) // 3 + 1:
+                    tc_terms.append(c_time_case(spec, part, rows, rests=True))
+                    tc_cases.append({"kind": "part", "spec": spec, "opts": opts, "rests": True})
+        # dispatch on the input type: the ensure_* functions return what the part's methods return
+        if pi % 4 == 0:
+            opts = osets[0]
+            ropts = {k: v for k, v in opts.items() if k in REST_OPT_NAMES}
+            msg = check_dispatch(spec, opts, ropts)
+            ctx.evaluations += 1
+            ctx.count("dispatch:" + ("ok" if not msg else "FAIL"))
+            if msg:
+                ctx.violation("dispatch on the input type: " + msg, {"kind": "dispatch", "spec": spec, "opts": opts, "message": msg})
     ctx.count("option_combinations_seen", len(seen_combos))
     ctx.extra["option_combinations_seen"] = len(seen_combos)
-    run_coq(ctx, "part", coq_terms, coq_cases,
-            "fun c => match c with (ns, mp, d, o, rests, impl) => part_case_ok ns mp d o rests impl end",
-            "model note_array/rest_array = Part.note_array/Part.rest_array (integer and string columns, row multiset, order)")
-    run_coq(ctx, "timecols", tc_terms, tc_cases,
-            "fun c => match c with (ns, mp, d, rests, impl) => time_cols_ok ns mp d rests impl end",
+    run_coq(ctx, "part", coq_terms, coq_cases, PART_CHECKER,
+            "model note_array/rest_array = Part.note_array/Part.rest_array (integer and string columns, row multiset, order; "
+            "voices of notes without voice compared as 'not a stated voice')")
+    run_coq(ctx, "timecols", tc_terms, tc_cases, TIME_CHECKER,
             "model quarter/beat columns (part maps at onset and onset+duration) = float32 columns within 2^-21")
+
+
+def same_arrays(a, b):
+    import numpy as np
+    return a.dtype == b.dtype and a.shape == b.shape and all(np.array_equal(a[n], b[n]) for n in a.dtype.names)
+
+
+def check_dispatch(spec, opts, ropts):
+    """ensure_notearray / ensure_rest_array on a part, a structured array, a one-part list."""
+    import numpy as np
+    import partitura.utils.music as M
+    part, _ = build_part(spec)
+    st, a = call_note_array(part, opts)
+    if st != "ok":
+        return None          # judged by the part-level oracle
+    try:
+        b = M.ensure_notearray(part, **opts)
+        if not same_arrays(a, b):
+            return "ensure_notearray(part, %s) differs from part.note_array(...)" % fmt_opts(opts)
+        if not same_arrays(M.ensure_notearray(a), a):
+            return "ensure_notearray(structured array) does not return the array"
+        st, ra = call_note_array(part, ropts, rests=True)
+        if st == "ok":
+            rb = M.ensure_rest_array(part, **ropts)
+            if not same_arrays(ra, rb):
+                return "ensure_rest_array(part, %s) differs from part.rest_array(...)" % fmt_opts(ropts)
+            if not same_arrays(M.ensure_rest_array(ra), ra):
+                return "ensure_rest_array(structured array) does not return the array"
+    except Exception as e:
+        return "raised %s: %s" % (type(e).__name__, e)
+    return None
 
 
 def part_features(spec):
@@ -695,6 +923,8 @@ def part_features(spec):
             f.append("pickup")
     if not [n for n in ns if not n.get("rest")]:
         f.append("no_notes")
+    if len(ns) > 20:
+        f.append("dense(>20 notes on few onsets)")
     keys = [(n["s"], midi_pitch(n)) for n in ns if not n.get("rest")]
     if len(keys) != len(set(keys)):
         f.append("equal_onset_and_pitch")
@@ -710,7 +940,7 @@ def run_coq(ctx, name, terms, cases, checker, what):
         ctx.obligation("correspondence: %s on 0 cases" % what, False, "no case generated")
         return
     try:
-        failing = ctx.coq_failing(name, "From PV Require Import Lib.Base Model.C05.\nFrom Coq Require Import QArith.", "", terms, checker, shard=40)
+        failing = ctx.coq_failing(name, "From PV Require Import Lib.Base Model.C05 Model.C05_Ext.\nFrom Coq Require Import QArith.", "", terms, checker, shard=40)
     except RuntimeError as e:
         ctx.obligation("correspondence: %s" % what, False, str(e)[-1500:])
         ctx.violation("correspondence machinery failed for %s: %s" % (name, str(e)[-800:]), {"stage": name}, no_input=True)
@@ -722,25 +952,98 @@ def run_coq(ctx, name, terms, cases, checker, what):
         ctx.violation("model/implementation disagree: %s" % what, c)
 
 
+# ---- histories: the array is a table of the score AS IT IS NOW
+
+
+def check_history(spec, first_ids, opts1, opts2, rests=False):
+    """Build the part with the notes in first_ids only, read its array (opts1), add the remaining notes
+    and tie links, read the array again (opts2): each reading must be the table of the score at that moment.
+    Returns (None | message, rows of the second reading, the part)."""
+    first = sub_spec(spec, first_ids)
+    part, objs = build_part(spec, only_ids=first_ids)
+    st, msg, rows, maps = check_part(first, opts1, rests, part=part)
+    if st == "FAIL":
+        return "first reading (before the score was extended): " + msg, None, None
+    # read the other array and the maps as well (anything that might be cached)
+    call_note_array(part, {k: v for k, v in opts1.items() if k in REST_OPT_NAMES}, rests=not rests)
+    rest = [n for n in spec["notes"] if n["id"] not in first_ids]
+    add_notes(part, objs, rest)
+    link_notes(objs, spec["notes"])
+    st, msg, rows, maps = check_part(spec, opts2, rests, part=part)
+    if st == "FAIL":
+        return "second reading (after %d more notes and their ties were added): %s" % (len(rest), msg), None, None
+    if st != "ok":
+        return None, None, None
+    return None, rows, part
+
+
+def stage_history(ctx, n, mp_ok):
+    rng = ctx.rng
+    terms, cases = [], []
+    for hi in range(n):
+        spec = gen_part_spec(rng, pid="H%d" % hi, allow_qd_change=False)
+        if len(spec["notes"]) < 2:
+            continue
+        ids = [x["id"] for x in spec["notes"]]
+        first_ids = sorted(rng.sample(ids, rng.randint(1, len(ids) - 1)))
+        o = option_sets(rng, OPT_NAMES, 2, mp_ok=mp_ok)
+        opts1 = rng.choice(o)
+        opts2 = opts1 if rng.random() < 0.5 else rng.choice(o)     # the same call twice: what a cache would serve
+        rests = rng.random() < 0.25
+        if rests:
+            opts1 = {k: v for k, v in opts1.items() if k in REST_OPT_NAMES}
+            opts2 = {k: v for k, v in opts2.items() if k in REST_OPT_NAMES}
+        msg, rows, part = check_history(spec, first_ids, opts1, opts2, rests)
+        ctx.evaluations += 2
+        ctx.count("history:" + ("FAIL" if msg else "ok"))
+        if msg:
+            ctx.violation("%s read, extended, read again: %s" % ("rest_array" if rests else "note_array", msg),
+                          {"kind": "history", "spec": spec, "first_ids": first_ids, "opts1": opts1, "opts2": opts2, "rests": rests, "message": msg})
+            continue
+        ctx.nontrivial(("history", spec, first_ids, opts1, opts2, rests))
+        if rows is not None and (rows or not rests) and len(terms) < n // 2 + 1:
+            term = c_part_case(spec, part, opts2, rows, rests)
+            if term is not None:
+                terms.append(term)
+                cases.append({"kind": "history", "spec": spec, "first_ids": first_ids, "opts1": opts1, "opts2": opts2, "rests": rests})
+    run_coq(ctx, "history", terms, cases, PART_CHECKER,
+            "model note_array/rest_array of the final score = second reading of a part that was read, extended and read again")
+
+
 # ---- scores
 
 
-def id_prefixes(n, uniq, via):
-    """Prefix of the ids of part i for the entry point `via` (flat list / score / one PartGroup holding
-    all parts / the first two parts inside a PartGroup followed by the others)."""
-    if not uniq:
-        return [""] * n
-    if via == "nested" and n >= 3:
-        return ["P00_P00_", "P00_P01_"] + ["P%02d_" % (i - 1) for i in range(2, n)]
-    return ["P%02d_" % i if n > 1 else "" for i in range(n)]
+ENTRIES_FLAT = ["score", "score", "ensure_score", "ensure_list", "partgroup", "ensure_partgroup", "from_list"]
+ENTRIES_NESTED = ["from_list", "from_list", "partgroup", "ensure_partgroup", "score_of_groups"]
 
 
-def expected_score_rows(specs, parts, opts, uniq, via="score"):
-    """Union of the part tables rescaled to the lcm; returns (rows, L_nonempty, L_all, errors)."""
+def call_score_array(specs, parts, shape, via, uniq, opts):
+    """Run one of the entry points on the parts arranged as `shape`.  Returns (array, effective shape)."""
+    import partitura.utils.music as M
+    import partitura.score as S
+    members = build_members(shape, parts)
+    kw = dict(unique_id_per_part=uniq, **opts)
+    if via == "score":
+        return S.Score(list(parts)).note_array(**kw), list(range(len(parts)))
+    if via == "ensure_score":
+        return M.ensure_notearray(S.Score(list(parts)), **kw), list(range(len(parts)))
+    if via == "score_of_groups":          # a Score holds the flat list of the parts of its groups
+        return S.Score(members).note_array(**kw), list(range(len(parts)))
+    if via == "ensure_list":
+        return M.ensure_notearray(list(parts), **kw), list(range(len(parts)))
+    if via in ("partgroup", "ensure_partgroup"):
+        g = S.PartGroup(group_name="all")
+        g.children = members
+        return (g.note_array(**kw) if via == "partgroup" else M.ensure_notearray(g, **kw)), shape
+    return M.note_array_from_part_list(members, **kw), shape
+
+
+def expected_score_rows(specs, parts, opts):
+    """Per part: its expected table rescaled to the lcm of the divisions of the parts that have rows."""
     per = []
     errs = {}
     o = dict(opts)
-    o["include_divs_per_quarter"] = True   # Score.note_array always carries divs_pq
+    o["include_divs_per_quarter"] = True   # the lcm rescaling needs every part's divisions
     for spec, part in zip(specs, parts):
         rows, maps = expected_rows(spec, part, o)
         errs.update(maps["errors"])
@@ -750,81 +1053,116 @@ def expected_score_rows(specs, parts, opts, uniq, via="score"):
     for d in ds:
         L = L * d // math.gcd(L, d)
     out = []
-    pref = id_prefixes(len(specs), uniq, via)
     for i, (spec, rows) in enumerate(zip(specs, per)):
         d = spec_divs(spec)
+        new = []
         for r in rows:
             r = dict(r)
             r["onset_div"] = r["onset_div"] * L // d
             r["duration_div"] = r["duration_div"] * L // d
             r["divs_pq"] = L
-            r["id"] = pref[i] + r["id"]
             r["_part"] = i
-            out.append(r)
+            new.append(r)
+        out.append(new)
     return out, L, errs
 
 
-def check_score(specs, opts, uniq, via="score"):
-    import partitura.utils.music as M
-    import partitura.score as S
+def content_key(r, cols):
+    return tuple(r[c] for c in cols if c not in ("id", "voice") and c not in F_COLS)
+
+
+def find_prefixes(got_rows, per_part, cols):
+    """unique_id_per_part: the property asks for part-prefixed ids, not for a format.  Find for every part
+    with rows a string p such that its rows appear with the ids p + id (same p for the whole part).
+    Returns {part: prefix} or None."""
+    from collections import Counter
+    pool = Counter((g["id"], content_key(g, cols)) for g in got_rows)
+    order = [i for i, rows in enumerate(per_part) if rows]
+    chosen = {}
+
+    def rec(k):
+        if k == len(order):
+            return True
+        i = order[k]
+        e0 = per_part[i][0]
+        k0 = content_key(e0, cols)
+        cands = sorted({gid[: len(gid) - len(e0["id"])] for (gid, ck), n in pool.items()
+                        if n > 0 and ck == k0 and gid.endswith(e0["id"])})
+        for p in cands:
+            need = Counter((p + e["id"], content_key(e, cols)) for e in per_part[i])
+            if all(pool[x] >= n for x, n in need.items()):
+                pool.subtract(need)
+                chosen[i] = p
+                if rec(k + 1):
+                    return True
+                pool.update(need)
+                del chosen[i]
+        return False
+    return dict(chosen) if rec(0) else None
+
+
+def check_score(specs, opts, uniq, via="score", shape=None):
+    """Direct oracle for the array of a score / list / (nested) part group.
+    Returns (status, message, rows, names, effective shape)."""
     sc, parts = build_score(specs)
-    exp, L, errs = expected_score_rows(specs, parts, opts, uniq, via)
+    if shape is None:
+        shape = list(range(len(specs)))
+    per_part, L, errs = expected_score_rows(specs, parts, opts)
     if errs:
-        return "map_unavailable", str(errs), None, None
+        return "map_unavailable", str(errs), None, None, None
     try:
-        if via == "score":
-            arr = sc.note_array(unique_id_per_part=uniq, **opts)
-        elif via == "ensure_score":
-            arr = M.ensure_notearray(sc, unique_id_per_part=uniq, **opts)
-        elif via == "partgroup":
-            g = S.PartGroup(group_name="g")
-            g.children = list(parts)
-            arr = g.note_array(unique_id_per_part=uniq, **opts) if len(parts) % 2 else M.ensure_notearray(g, unique_id_per_part=uniq, **opts)
-        elif via == "nested" and len(parts) >= 3:
-            g = S.PartGroup(group_name="g")
-            g.children = list(parts[:2])
-            arr = M.note_array_from_part_list([g] + list(parts[2:]), unique_id_per_part=uniq, **opts)
-        else:
-            arr = M.ensure_notearray(parts, unique_id_per_part=uniq, **opts)
+        arr, eff = call_score_array(specs, parts, shape, via, uniq, opts)
     except Exception as e:
-        return "FAIL", "Score.note_array raised %s: %s" % (type(e).__name__, e), None, None
+        return "FAIL", "%s raised %s: %s" % (via, type(e).__name__, e), None, None, None
     rows = array_rows(arr)
-    if len(set(r["id"] for r in exp)) != len(exp):
-        # ids of different parts may coincide: make the matching key unique on both sides by position in part
-        msg = compare_table_noid(rows, exp, arr.dtype.names)
-    else:
-        msg = compare_table(rows, exp, arr.dtype.names)
+    names = arr.dtype.names
+    exp = [r for rows_i in per_part for r in rows_i]
+    # the divs_pq column is only promised when asked for (the implementation always has it)
+    optional = () if opts.get("include_divs_per_quarter") else ("divs_pq",)
+    cols = table_columns(exp, names, optional)
+    canon = canonical_prefixes(eff, uniq)
+    prefixes = {i: "" for i in range(len(specs))}
+    if uniq and exp and len(rows) == len(exp) and not [c for c in cols if c not in names]:
+        found = find_prefixes(rows, per_part, cols)
+        if found is None:
+            found = canon          # no consistent prefixing explains the ids: report against the usual scheme
+        prefixes.update(found)
+    final_ids = [prefixes[e["_part"]] + e["id"] for e in exp]
+    msg, matched = compare_table(rows, exp, names, optional=optional, final_ids=final_ids)
     if msg:
-        return "FAIL", msg, rows, arr.dtype.names
-    # quarter positions are preserved by the rescaling: onset_div / divs_pq == onset / d  (exact)
-    return "ok", "", rows, arr.dtype.names
+        return "FAIL", msg, rows, names, eff
+    if uniq and len(specs) > 1:
+        with_rows = [i for i, r in enumerate(per_part) if r]
+        for a in with_rows:
+            for b in with_rows:
+                if a < b and (prefixes[a].startswith(prefixes[b]) or prefixes[b].startswith(prefixes[a])):
+                    return "FAIL", ("unique_id_per_part: the ids of part %d and part %d are prefixed with %r and %r, which does not "
+                                    "keep the parts apart" % (a, b, prefixes[a], prefixes[b])), rows, names, eff
+    for r, e in zip(rows, matched):
+        r["_exp"] = e
+        r["_canon_id"] = canon[e["_part"]] + e["_oid"]
+    return "ok", "", rows, names, eff
 
 
-def compare_table_noid(got_rows, exp_rows, names):
-    """Same as compare_table but rows are matched on the whole integer/string content
-    (ids are not unique across parts when unique_id_per_part=False)."""
-    if len(got_rows) != len(exp_rows):
-        return "row count %d, expected %d" % (len(got_rows), len(exp_rows))
-    for a, b in zip(got_rows, got_rows[1:]):
-        if (a["onset_div"], a["pitch"]) > (b["onset_div"], b["pitch"]):
-            return "rows not ordered by (onset, pitch)"
-    cols = [c for c in INT_COLS + STR_COLS if exp_rows and c in exp_rows[0]]
-    missing = [c for c in cols if c not in names]
-    if missing:
-        return "columns missing from the array: %s" % missing
-    key = lambda r: tuple(r[c] for c in cols)
-    pool = {}
-    for e in exp_rows:
-        pool.setdefault(key(e), []).append(e)
-    for g in got_rows:
-        c = pool.get(key(g))
-        if not c:
-            return "row %r is not the (rescaled) row of any sounding note" % (key(g),)
-        e = c.pop()
-        for fc in F_COLS:
-            if not f4_close(g[fc], e[fc]):
-                return "row %r: %s = %r, the part's map gives %r" % (g["id"], fc, g[fc], e[fc])
-    return None
+def c_itree(shape, pterms):
+    return clist([pterms[x] if isinstance(x, int) else "(IGroup %s)" % c_itree(x, pterms) for x in shape])
+
+
+SCORE_CHECKER = "fun c => match c with (members, uniq, o, impl) => tree_case_ok members uniq o impl end"
+
+
+def c_score_case(specs, opts, uniq, rows, names, eff):
+    sc, parts = build_score(specs)
+    pterms = []
+    for spec, part in zip(specs, parts):
+        am = all_maps(part, spec)
+        if am["errors"]:
+            return None
+        pterms.append("(ILeaf %s %s %s)" % (c_notes(spec), c_maps(am), cz(spec_divs(spec))))
+    o = dict(opts)
+    o["include_divs_per_quarter"] = "divs_pq" in names
+    obs = "(%s : list obs)" % clist([c_obs(r, names, obs_id=r["_canon_id"]) for r in rows])
+    return "((%s : list itree), %s, %s, %s)" % (c_itree(eff, pterms), cbool(uniq), c_opts(o), obs)
 
 
 def stage_scores(ctx, n_scores, mp_ok, full_every):
@@ -838,7 +1176,7 @@ def stage_scores(ctx, n_scores, mp_ok, full_every):
         L = 1
         for d in nonempty:
             L = L * d // math.gcd(L, d)
-        ctx.count("score:parts=%d" % len(specs))
+        ctx.count("score:parts=%s" % (len(specs) if len(specs) < 10 else "10+"))
         if nonempty and L > max(nonempty):
             ctx.count("score:lcm_exceeds_all")
         empties = [i for i, s in enumerate(specs) if not [n for n in s["notes"] if not n.get("rest")]]
@@ -846,72 +1184,113 @@ def stage_scores(ctx, n_scores, mp_ok, full_every):
             ctx.count("score:has_part_without_notes")
             if empties[0] < len(specs) - 1:
                 ctx.count("score:part_without_notes_not_last")
+        if max([len(s["notes"]) for s in specs] + [0]) > 20:
+            ctx.count("score:has_dense_part")
         full = full_every and si % full_every == 0
         osets = option_sets(rng, names7, 2, full=full, mp_ok=mp_ok)
         if not full:
             osets = osets[:5]
         for oi, opts in enumerate(osets):
             uniq = rng.random() < 0.6 if not full else (oi % 2 == 0)
-            via = rng.choice(["score", "score", "ensure_score", "ensure_list", "partgroup", "nested"])
-            ctx.count("score:via=" + via)
-            status, msg, rows, names = check_score(specs, opts, uniq, via)
+            shape = gen_shape(rng, len(specs))
+            flat = shape_is_flat(shape)
+            via = rng.choice(ENTRIES_FLAT if flat else ENTRIES_NESTED)
+            ctx.count("score:via=" + via + ("" if flat else "(nested)"))
+            status, msg, rows, names, eff = check_score(specs, opts, uniq, via, shape)
             ctx.evaluations += 1
             ctx.count("score_note_array:" + status)
             if status == "FAIL":
-                small = shrink_score(specs, lambda ss: check_score(ss, opts, uniq, via)[0] == "FAIL")
-                m2 = check_score(small, opts, uniq, via)[1]
-                ctx.violation("Score.note_array(unique_id_per_part=%s, %s) [%s]: %s" % (uniq, fmt_opts(opts), via, m2 or msg),
-                              {"kind": "score", "specs": small, "opts": opts, "uniq": uniq, "via": via, "message": m2 or msg})
+                small = shrink_score(specs, lambda ss: check_score(ss, opts, uniq, via, shape)[0] == "FAIL")
+                m2 = check_score(small, opts, uniq, via, shape)[1]
+                ctx.violation("note array of %d parts (unique_id_per_part=%s, %s) [%s, arrangement %s]: %s"
+                              % (len(specs), uniq, fmt_opts(opts), via, shape, m2 or msg),
+                              {"kind": "score", "specs": small, "opts": opts, "uniq": uniq, "via": via, "shape": shape, "message": m2 or msg})
                 continue
             if status != "ok":
                 continue
-            if len(set(ds)) > 1 or empties:
-                ctx.nontrivial(("score", specs, opts, uniq))
-            if oi < 2 and not (via == "nested" and len(specs) >= 3):
-                sc, parts = build_score(specs)
-                pterms = []
-                bad = False
-                for spec, part in zip(specs, parts):
-                    am = all_maps(part, spec)
-                    if am["errors"]:
-                        bad = True
-                    pterms.append(ctuple([c_notes(spec), c_maps(am), cz(spec_divs(spec))]))
-                if bad:
+            if len(set(ds)) > 1 or empties or not flat:
+                ctx.nontrivial(("score", specs, opts, uniq, shape))
+            if oi < 2:
+                term = c_score_case(specs, opts, uniq, rows, names, eff)
+                if term is None:
                     continue
-                o = dict(opts)
-                o["include_divs_per_quarter"] = True
-                obs = "(%s : list obs)" % clist([c_obs(r, names) for r in rows])
-                terms.append("((%s : list (list note * maps * Z)), %s, %s, %s)" % (clist(pterms), cbool(uniq), c_opts(o), obs))
-                cases.append({"kind": "score", "specs": specs, "opts": opts, "uniq": uniq, "via": via})
+                terms.append(term)
+                cases.append({"kind": "score", "specs": specs, "opts": opts, "uniq": uniq, "via": via, "shape": shape})
         if si < 1:
             ctx.sample({"score_specs": specs})
-        # rest arrays of a part list: union of the part rest arrays (no crash, same rows in quarters)
+        # rest arrays of a part list: union of the part rest arrays
         if si % 3 == 0:
-            msg = check_rest_list(specs, rng.random() < 0.5)
+            uq = rng.random() < 0.5
+            rvia = rng.choice(["from_list", "ensure_list", "partgroup", "ensure_partgroup"])
+            msg = check_rest_list(specs, uq, rvia)
             ctx.evaluations += 1
             ctx.count("rest_array_from_part_list:" + ("ok" if not msg else "FAIL"))
             if msg:
-                ctx.violation("rest_array_from_part_list: " + msg, {"kind": "restlist", "specs": specs, "message": msg})
-    run_coq(ctx, "score", terms, cases,
-            "fun c => match c with (parts, uniq, o, impl) => score_case_ok parts uniq o impl end",
-            "model score_array (lcm rescaling, multipliers per part, P{i:02d}_ prefix, two-pass sort) = Score.note_array / ensure_notearray")
+                ctx.violation("rest array of a list of parts [%s]: %s" % (rvia, msg),
+                              {"kind": "restlist", "specs": specs, "uniq": uq, "via": rvia, "message": msg})
+    run_coq(ctx, "score", terms, cases, SCORE_CHECKER,
+            "model tree_array (nested part groups; lcm rescaling, multipliers per member, two-pass sort; id prefixes compared "
+            "after the oracle has found them consistent per part and prefix-free) = Score.note_array / PartGroup.note_array / "
+            "ensure_notearray / note_array_from_part_list")
 
 
-def check_rest_list(specs, uniq):
+def check_rest_list(specs, uniq, via="from_list"):
+    """The rest array of a list of parts is the union of the part rest arrays (ids: the part's id behind a
+    per-part prefix when unique_id_per_part; staff, voice and quarter times as in the part arrays)."""
     import partitura.utils.music as M
+    import partitura.score as S
     sc, parts = build_score(specs)
     try:
-        arr = M.rest_array_from_part_list(parts, unique_id_per_part=uniq, include_staff=True)
+        if via == "ensure_list":
+            arr = M.ensure_rest_array(list(parts), unique_id_per_part=uniq, include_staff=True)
+        elif via in ("partgroup", "ensure_partgroup"):
+            g = S.PartGroup(group_name="g")
+            g.children = list(parts)
+            arr = (g.rest_array(unique_id_per_part=uniq, include_staff=True) if via == "partgroup"
+                   else M.ensure_rest_array(g, unique_id_per_part=uniq, include_staff=True))
+        else:
+            arr = M.rest_array_from_part_list(parts, unique_id_per_part=uniq, include_staff=True)
     except Exception as e:
         return "raised %s: %s" % (type(e).__name__, e)
-    got = sorted((str(r["id"]), int(r["staff"]), int(r["voice"])) for r in arr)
-    exp = []
+    got = array_rows(arr)
+    per = []
     for i, (spec, part) in enumerate(zip(specs, parts)):
         rows, _ = expected_rows(spec, part, {"include_staff": True}, rests=True)
         for r in rows:
-            exp.append((("P%02d_" % i if uniq else "") + r["id"], r["staff"], r["voice"]))
-    if got != sorted(exp):
-        return "rows %r, expected the union of the part rest arrays %r" % (got[:6], sorted(exp)[:6])
+            r["_part"] = i
+        per.append(rows)
+    exp = [r for rows in per for r in rows]
+    if len(got) != len(exp):
+        return "%d rows, the parts have %d rests" % (len(got), len(exp))
+    cols = ["staff", "id"]
+    prefixes = {i: "" for i in range(len(specs))}
+    if uniq and exp:
+        found = find_prefixes(got, per, cols)
+        if found is None:
+            found = {i: "P%02d_" % i for i in range(len(specs))}
+        prefixes.update(found)
+    by_id = {}
+    for e in exp:
+        by_id.setdefault(prefixes[e["_part"]] + e["id"], []).append(e)
+    for g in got:
+        cands = by_id.get(g["id"])
+        if not cands:
+            return "row with id %r is not a rest of one of the parts (or appears too often)" % g["id"]
+        first = None
+        for k, e in enumerate(cands):
+            m = row_diff(g, e, ["staff", "voice", "onset_quarter", "duration_quarter"], rests=True)
+            if m is None:
+                cands.pop(k)
+                break
+            first = first or m
+        else:
+            return first
+    if uniq and len(specs) > 1:
+        wr = [i for i, r in enumerate(per) if r]
+        for a in wr:
+            for b in wr:
+                if a < b and (prefixes[a].startswith(prefixes[b]) or prefixes[b].startswith(prefixes[a])):
+                    return "unique_id_per_part: prefixes %r and %r do not keep parts %d and %d apart" % (prefixes[a], prefixes[b], a, b)
     return None
 
 
@@ -1013,7 +1392,7 @@ def check_inverse(case):
         kw["estimate_time"] = True
     try:
         sc = note_array_to_score(arr.copy(), **kw)
-        out = sc.note_array()
+        out = sc.note_array(include_divs_per_quarter=True)
     except Exception as e:
         return "raised %s: %s" % (type(e).__name__, e), None
     if len(out) != len(rows):
@@ -1033,9 +1412,52 @@ def check_inverse(case):
     shift = o2[0][3] - float(Fraction(o2[0][0], int(out[0]["divs_pq"])))
     for on, p, du, oq, dq in o2:
         D = int(out[0]["divs_pq"])
-        if not f4_close(dq, du / D) or abs((oq - shift) - on / D) > 1e-4:
+        if not f4_close(dq, du / D, span=abs(oq) + abs(oq + du / D)) or abs((oq - shift) - on / D) > 1e-4:
             return "quarter columns of the rebuilt score do not match its division columns (onset %d)" % on, None
     return None, out
+
+
+def gen_inverse_list(rng):
+    """Two or three arrays of one kind (note_array_to_score builds one part per array)."""
+    first = gen_inverse_case(rng)
+    out = [first]
+    want = rng.randint(2, 3)
+    guard = 0
+    while len(out) < want and guard < 200:
+        guard += 1
+        c = gen_inverse_case(rng)
+        if c["kind"] != first["kind"]:
+            continue
+        if c["kind"] != "beat" and c["divs"] != first["divs"]:
+            continue
+        out.append(c)
+    for c in out:
+        c["estimate_time"] = False
+    return out
+
+
+def check_inverse_list(cases):
+    """note_array_to_score on a LIST of arrays, then Score.note_array: the union of the onsets, durations
+    (in quarters) and pitches of the arrays."""
+    from partitura.musicanalysis.note_array_to_score import note_array_to_score
+    arrs = [build_inverse_array(c) for c in cases]
+    kw = {}
+    if cases[0]["kind"] == "div":
+        kw["divs"] = cases[0]["divs"]
+    try:
+        sc = note_array_to_score([a.copy() for a in arrs], **kw)
+        out = sc.note_array(include_divs_per_quarter=True)
+    except Exception as e:
+        return "raised %s: %s" % (type(e).__name__, e)
+    exp = sorted((Fraction(a), p, Fraction(b)) for c in cases for a, b, p in c["rows"])
+    if len(out) != len(exp):
+        return "round trip of %d arrays returned %d rows for %d input rows" % (len(cases), len(out), len(exp))
+    got = sorted((Fraction(int(r["onset_div"]), int(r["divs_pq"])), int(r["pitch"]), Fraction(int(r["duration_div"]), int(r["divs_pq"]))) for r in out)
+    if got != exp:
+        i = next(i for i in range(len(exp)) if got[i] != exp[i])
+        return ("after note_array_to_score (list of %d arrays) + note_array the %d-th row (onset, pitch, duration in quarters) is %s, "
+                "the input arrays have %s" % (len(cases), i, tuple(str(x) for x in got[i]), tuple(str(x) for x in exp[i])))
+    return None
 
 
 def stage_inverse(ctx, n_cases):
@@ -1061,6 +1483,15 @@ def stage_inverse(ctx, n_cases):
         ctx.nontrivial(("inverse", case))
         if ci < 1:
             ctx.sample({"inverse_case": case})
+        if ci % 6 == 0:
+            lst = gen_inverse_list(rng)
+            lmsg = check_inverse_list(lst)
+            ctx.evaluations += 1
+            ctx.count("inverse:list_of_%d_arrays:%s" % (len(lst), lst[0]["kind"]))
+            if lmsg:
+                ctx.violation("note_array_to_score(list) -> note_array: %s" % lmsg, {"kind": "inverse_list", "cases": lst, "message": lmsg})
+            else:
+                ctx.nontrivial(("inverse_list", lst))
         # the two helper functions directly
         arr = build_inverse_array(case)
         if case["kind"] == "beat":
@@ -1091,8 +1522,9 @@ def stage_inverse(ctx, n_cases):
                     ctx.violation("create_beats_from_divs(divs=%d): %r" % (d, r), {"kind": "inverse", "case": case, "message": "create_beats_from_divs"})
                     break
     run_coq(ctx, "inverse", terms, cases,
-            "fun c => match c with (ons, dus, impl) => inverse_case_ok ons dus impl end",
-            "model divs_columns (lcm of onset and duration denominators, truncation) = create_divs_from_beats")
+            "fun c => match c with (ons, dus, impl) => inverse_case_ok_m ons dus impl end",
+            "create_divs_from_beats returns a positive multiple of the model's lcm of the onset and duration denominators and the "
+            "division columns the model computes for that number")
 
 
 def shrink_inverse(case):
@@ -1164,7 +1596,7 @@ def stage_corpus(ctx, mp_ok):
     for specs in c["scores"]:
         for uniq in (True, False):
             for opts in ({}, all_on):
-                status, msg, rows, _ = check_score(specs, opts, uniq)
+                status, msg = check_score(specs, opts, uniq)[:2]
                 ctx.evaluations += 1
                 ctx.count("corpus:" + status)
                 if status == "FAIL":
@@ -1178,19 +1610,9 @@ def stage_corpus(ctx, mp_ok):
         ctx.evaluations += 1
         if msg:
             ctx.violation("corpus inverse: " + msg, {"kind": "inverse", "case": case, "message": msg})
-    # ensure_notearray dispatch: a structured array is returned as it is; a part gives its note array
-    import numpy as np
-    import partitura.utils.music as M
-    part, _ = build_part(c["parts"][0])
-    a = part.note_array()
-    ok = M.ensure_notearray(a) is a and np.array_equal(M.ensure_notearray(part), a)
-    try:
-        M.ensure_notearray(np.zeros(3))
-        ok = False
-    except ValueError:
-        pass
-    if not ok:
-        ctx.violation("ensure_notearray dispatch (array / part)", {"kind": "ensure"})
+    msg = check_dispatch(c["parts"][0], all_on, {k: v for k, v in all_on.items() if k in REST_OPT_NAMES})
+    if msg:
+        ctx.violation("corpus dispatch on the input type: " + msg, {"kind": "dispatch", "spec": c["parts"][0], "opts": all_on, "message": msg})
 
 
 # ----------------------------------------------------------------------------
@@ -1198,21 +1620,32 @@ def stage_corpus(ctx, mp_ok):
 
 def run(ctx):
     ctx.rule = ("Parts and scores are built through the public API from generated specifications (layout of measures, time/key "
-                "signatures, pickups, division changes, tie chains over barlines, grace notes, missing voice/staff, equal "
-                "(onset,pitch) duplicates, parts without notes, 2-4 parts whose divisions have an lcm above all of them); every "
-                "call (part x option set, score x option set x unique_id_per_part x entry point, inverse round trip) is one "
-                "evaluation.  Distinct non-trivial = distinct (specification, options) pairs whose specification has at least one "
-                "of those features (parts), differing divisions or a part without notes (scores), or any inverse case.")
+                "signatures, pickups 40 %, division changes 20 %, tie chains 25 % of the items (segments up to 1.5 bars: ties over "
+                "barlines), grace notes 20 %, voice missing 1/6 (+8 % parts without any voice), staff missing 2/5, equal (onset, pitch) "
+                "duplicates 15 %, 9 % dense parts (24-70 notes on 2-6 onsets: above numpy's small-array sort path), 6 % parts without "
+                "notes; scores: 2-4 parts whose divisions have an lcm above all of them (4,6 / 4,6,10 / 6,10,15 ...), 50 % with a part "
+                "without notes at a random position, 8 % one part, 6 % 11-14 parts (two-digit part numbers), 10 % with a dense part, "
+                "55 % handed over as nested PartGroups (groups of one part, groups in groups)).  One evaluation = one call of an "
+                "entry point (part x option set, list of parts x option set x unique_id_per_part x entry point x arrangement, one "
+                "reading of a history, one inverse round trip).  Histories: a part is read, extended (notes, tie links) and read "
+                "again, half of them with identical options.  Distinct non-trivial = distinct (specification, options[, arrangement]) "
+                "whose specification has at least one of the counted features (parts), differing divisions / a part without notes / a "
+                "nested arrangement (scores), every history, every inverse case.")
     ctx.trusted = ["Coq 8.16.1 kernel incl. vm_compute",
                    "harness/props/c05.py: generators, Coq printers, Python oracle (expected rows from the specification)",
                    "the part's own quarter/beat/key/time-signature/metrical maps as reference for those columns (C02/C10)",
                    "partitura's Part.add / set_quarter_duration put objects where the specification says (C01)"]
-    ctx.assumptions = ["float32 columns compared with relative tolerance 2^-21 against the part's float64 maps",
+    ctx.assumptions = ["float32 onset columns compared with relative tolerance 2^-21 against the part's float64 maps; duration columns "
+                       "with 2^-21 of the magnitudes of the two map values they are the difference of",
                        "numpy dtype truncation (U256, i4 overflow) out of scope",
                        "cyclic tie chains excluded (Python recursion would not terminate)",
                        "parts of one generated score share the metrical layout, so beat order = division order",
+                       "the voice of a note WITHOUT voice, the id-prefix FORMAT, the dummy spelling letter of rests, the presence of "
+                       "divs_pq in a score array when it was not asked for and the exact number of divisions create_divs_from_beats "
+                       "picks are not named by the property: only 'not a stated voice', 'one prefix per part, prefix-free across "
+                       "parts', and 'a positive multiple of the lcm of the denominators' are demanded",
                        "inverse direction: non-negative onsets, denominators <= 16, arrays without 'voice' carry no zero-duration notes (voice estimation is C17)"]
-    ok, why = ctx.coq_props(expect_min=16)
+    ok, why = ctx.coq_props(expect_min=30)
     if not ok:
         ctx.log("coq_props failed: " + why[:2000])
     mp_ok = probe_metrical_position()
@@ -1223,6 +1656,7 @@ def run(ctx):
     stage_corpus(ctx, mp_ok)
     stage_parts(ctx, n_parts=(120 if quick else 1200), n_random_opts=(2 if quick else 4),
                 full_every=(0 if quick else 12), mp_ok=mp_ok, coq_per_part=(2 if quick else 2))
+    stage_history(ctx, n=(60 if quick else 600), mp_ok=mp_ok)
     stage_scores(ctx, n_scores=(90 if quick else 900), mp_ok=mp_ok, full_every=(0 if quick else 30))
     stage_inverse(ctx, n_cases=(200 if quick else 3000))
     if not ok and len(ctx.violations) == nv0:
@@ -1240,13 +1674,26 @@ def replay(obj):
         print("specification:", json.dumps(r["spec"]))
         print("options:", r["opts"])
         print("implementation:", st, res if st == "exc" else "\n" + "\n".join(str(x) for x in array_rows(res)))
-        print("expected rows (any order within equal onset,pitch):\n" + "\n".join(str(x) for x in sorted(exp, key=lambda x: (x["onset_div"], x["pitch"]))))
+        print("expected rows (any order within equal onset,pitch; the voice of a note without voice only has to differ from the stated voices):\n"
+              + "\n".join(str({k: v for k, v in x.items() if not k.startswith("_")}) for x in sorted(exp, key=lambda x: (x["onset_div"], x["pitch"]))))
         print("oracle:", check_part(r["spec"], r["opts"], r.get("rests", False))[:2])
     elif kind == "score":
         print("specifications:", json.dumps(r["specs"]))
-        print("oracle:", check_score(r["specs"], r["opts"], r["uniq"], r.get("via", "score"))[:3])
+        print("entry point:", r.get("via", "score"), " arrangement of the parts:", r.get("shape"))
+        st = check_score(r["specs"], r["opts"], r["uniq"], r.get("via", "score"), r.get("shape"))
+        print("oracle:", st[:2])
+        if st[2] is not None:
+            print("implementation:\n" + "\n".join(str({k: v for k, v in x.items() if not k.startswith("_")}) for x in st[2]))
     elif kind == "restlist":
-        print("oracle:", check_rest_list(r["specs"], True))
+        print("oracle:", check_rest_list(r["specs"], r.get("uniq", True), r.get("via", "from_list")))
+    elif kind == "inverse_list":
+        for c in r["cases"]:
+            print("array:\n", build_inverse_array(c))
+        print("oracle:", check_inverse_list(r["cases"]))
+    elif kind == "dispatch":
+        print("oracle:", check_dispatch(r["spec"], r["opts"], {k: v for k, v in r["opts"].items() if k in REST_OPT_NAMES}))
+    elif kind == "history":
+        print("oracle:", check_history(r["spec"], r["first_ids"], r["opts1"], r["opts2"], r.get("rests", False))[:2])
     elif kind == "inverse":
         print("array:\n", build_inverse_array(r["case"]))
         print("oracle:", check_inverse(r["case"]))
